@@ -13,6 +13,37 @@ def compile_fn(facts):
     raise F.AnchorMissing("public compile function")
 
 
+def premises_hold(facts):
+    """DefaultPrint occurs only in trees without any action (used by C10/C16 to discharge its direct print):
+    action() is a complete recursive exists and compile() wraps only when it is false."""
+    class _Null:
+        def __init__(self):
+            self.bad = []
+
+        def ob(self, rule, site, inst, ok, *a, **k):
+            if ok is not True and rule.startswith("C09."):
+                self.bad.append("%s : %s : %s" % (rule, site, inst))
+            return ok is True
+
+        def control(self, *a, **k):
+            pass
+
+        def floor(self, *a, **k):
+            pass
+
+        trusted = []
+        explanation = ""
+        decided = []
+        not_decided = []
+
+    n = _Null()
+    try:
+        run(n, facts, "quick")
+    except Exception as e:  # fail closed
+        n.bad.append("C09 rules could not be evaluated: %s" % e)
+    return (not n.bad), n.bad
+
+
 def run(c, facts, tier):
     c.trusted = ["E1 extractor", "emission interpreter (vlib/emit.py)"]
     c.explanation = (
